@@ -48,8 +48,16 @@ def anchors() -> Dict[str, Set[str]]:
         import glob
         allfiles = {os.path.relpath(pth, "/repo") for pth in glob.glob("/repo/xitorch/**/*.py", recursive=True) if "/_tests/" not in pth}
         out.setdefault("C19", set()).update(allfiles)          # a leak can hide in any module
-        for k in ("C02", "C04", "C08", "C13", "C16"):
+        for k in ("C02", "C04", "C06", "C08", "C13", "C16", "C17"):
             out.setdefault(k, set()).update({"xitorch/_core/pure_function.py", "xitorch/_core/editable_module.py", "xitorch/_utils/misc.py"})
+        for k in ("C05", "C06"):
+            out[k].update({"xitorch/_core/linop.py"})                       # the eigen-solvers act on the operator algebra
+        for k in ("C08", "C13", "C16"):
+            out[k].update({"xitorch/_utils/tensor.py"})                     # convert_none_grads_to_zeros
+        out["C18"].update({"xitorch/interpolate/interp1.py", "xitorch/integrate/squad.py", "xitorch/_impls/integrate/fixed_quad.py",
+                           "xitorch/_impls/interpolate/interp_1d.py"})    # every front-end with a `method` argument
+        out["C01"].update({"xitorch/_core/editable_module.py"})             # uselinopparams in solve_torchfcn.forward
+        out["C20"].update({"xitorch/_core/editable_module.py"})             # deep copies of EditableModule instances
         _ANCHORS = out
     return _ANCHORS
 
@@ -336,15 +344,155 @@ def data_assignment(model: Model, R: RuleResult, files: Optional[Set[str]] = Non
     return n
 
 
+# ------------------------------------------------------------------------------------------------- DR: discarded result
+_EFFECT_CALLS = ("warnings.warn", "print", "warn", "setattr", "delattr", "exec")
+
+
+def _pure_value_function(fi: FuncInfo) -> bool:
+    """the function's only observable effect is its return value: every exit returns a value, nothing is raised / warned / printed /
+    yielded, no state is written, no parameter (or object reachable from one) is mutated, and it calls nothing but torch / builtins."""
+    fn = fi.node
+    rets = [r for r in own_nodes(fn) if isinstance(r, ast.Return)]
+    if not rets or any(r.value is None or (isinstance(r.value, ast.Constant) and r.value.value is None) for r in rets):
+        return False
+    params = set(fi.all_params()) | ({fi.vararg()} if fi.vararg() else set()) | ({fi.kwarg()} if fi.kwarg() else set())
+    for n in own_nodes(fn):
+        if isinstance(n, (ast.Raise, ast.Yield, ast.YieldFrom, ast.Assert, ast.Global, ast.Nonlocal, ast.With, ast.Try, ast.Delete)):
+            return False
+        if isinstance(n, (ast.Assign, ast.AugAssign, ast.AnnAssign)):
+            tg = n.targets if isinstance(n, ast.Assign) else [n.target]
+            for t in tg:
+                for x in ast.walk(t):
+                    if isinstance(x, (ast.Attribute, ast.Subscript)):
+                        return False              # a store into an object (possibly the caller's)
+        if isinstance(n, ast.Call):
+            name = ast.unparse(n.func)
+            if name in _EFFECT_CALLS or name.endswith("_") and isinstance(n.func, ast.Attribute):
+                return False                      # torch in-place methods end in "_"
+            root = n.func
+            while isinstance(root, ast.Attribute):
+                root = root.value
+            if isinstance(root, ast.Name) and root.id not in ("torch", "math", "np", "numpy") and isinstance(n.func, ast.Name) \
+                    and n.func.id not in ("len", "range", "float", "int", "isinstance", "list", "tuple", "min", "max", "abs", "sum", "zip", "enumerate", "type"):
+                return False                      # calls another non-builtin function: effects unknown
+            if isinstance(n.func, ast.Attribute) and n.func.attr in ("append", "extend", "pop", "update", "insert", "remove", "clear", "setdefault", "sort", "reverse", "add"):
+                return False
+    if state_writes(fi):
+        return False
+    return True
+
+
+def discarded_results(model: Model, R: RuleResult, files: Set[str]) -> int:
+    """A call statement whose callee's only effect is its return value does nothing: the guard / conversion / clamp it was written for
+    is silently not applied.  (Typical origin: a helper that used to work in place is changed to return a copy while a caller
+    still relies on the in-place effect.)"""
+    n = 0
+    for fi in model.all_functions():
+        if fi.module.relpath not in files:
+            continue
+        for s_ in own_nodes(fi.node):
+            if isinstance(s_, ast.Expr) and isinstance(s_.value, ast.Call):
+                r = model.resolve_expr(fi.module, s_.value.func)
+                if r and r[0] == "func" and r[1].cls is None:
+                    n += 1
+                    if _pure_value_function(r[1]):
+                        R.bad(fi, s_, "the result of %s(...) is discarded, and that function has no effect other than its return value (it does not modify its "
+                              "arguments): the statement does nothing" % r[1].qualname)
+                    else:
+                        R.ok(fi.fq, "statement call of %s: the callee acts through effects (raise / in-place / state)" % r[1].qualname)
+    from ..model import Module
+    ctl = Module("<control>", "<control>", "control", "import torch\ndef _guard(r, eps):\n    return torch.where(r == 0, eps, r)\ndef _guard_inplace(r, eps):\n    r[r == 0] = eps\n    return r\n")
+    fired = _pure_value_function(ctl.functions["_guard"])
+    quiet = not _pure_value_function(ctl.functions["_guard_inplace"])
+    R.controls.append(dict(name="copying-vs-in-place-guard", ok=fired and quiet, detail="pure twin recognised=%s, in-place twin exempt=%s" % (fired, quiet)))
+    R.ok("anchor files", "%d statement-calls of package functions examined in %d file(s)" % (n, len(files)))
+    return n
+
+
+# ------------------------------------------------------------------------------------------------- NT: None-defaults by truthiness
+def _optional_params(fi: FuncInfo) -> Set[str]:
+    a = fi.node.args
+    out = set()
+    pos = a.posonlyargs + a.args
+    defaults = [None] * (len(pos) - len(a.defaults)) + list(a.defaults)
+    for p_, d in list(zip(pos, defaults)) + list(zip(a.kwonlyargs, a.kw_defaults)):
+        ann = ast.unparse(p_.annotation) if p_.annotation else ""
+        if "bool" in ann and not any(t in ann for t in ("str", "int", "float", "Tensor", "Callable", "Sequence", "List", "Mapping", "Dict", "Any")):
+            continue                     # Optional[bool]: truthiness IS the value
+        if (isinstance(d, ast.Constant) and d.value is None) or "Optional" in ann or ann.endswith("None]"):
+            out.add(p_.arg)
+    return out
+
+
+def none_by_truthiness(model: Model, R: RuleResult, files: Set[str]) -> int:
+    """An optional parameter (default None) is resolved with an `is None` test.  A truthiness test (`x or default`, `if not x`) also
+    replaces every *legal falsy* value - 0, 0.0, "", an empty container, a falsy callable object - by the default, silently."""
+    n = 0
+    for fi in model.all_functions():
+        if fi.module.relpath not in files:
+            continue
+        op = _optional_params(fi)
+        if not op:
+            continue
+        for node in own_nodes(fi.node):
+            tests = []
+            if isinstance(node, (ast.If, ast.While, ast.IfExp)):
+                tests.append(node.test)
+            if isinstance(node, ast.BoolOp):
+                tests.extend(node.values[:-1] if isinstance(node.op, ast.Or) else node.values)
+            for t in tests:
+                while isinstance(t, ast.UnaryOp) and isinstance(t.op, ast.Not):
+                    t = t.operand
+                if isinstance(t, ast.Name) and t.id in op:
+                    # re-bound to a bool / non-optional value before this test?  (flow-insensitive: any re-binding exempts)
+                    if any(isinstance(x, ast.Name) and x.id == t.id and isinstance(x.ctx, ast.Store) for x in own_nodes(fi.node)):
+                        continue
+                    R.bad(fi, enclosing_stmt(node), "optional parameter `%s` is tested by truthiness: a legal falsy value (0, 0.0, \"\", an empty or falsy object) is "
+                          "silently replaced by the default / treated as absent; use `is None`" % t.id)
+        n += len(op)
+    R.ok("anchor files", "%d optional parameter(s) in %d file(s): none is resolved by a truthiness test" % (n, len(files)))
+    ctl = ast.parse("def f(x, extrap=None):\n    return extrap or 'nan'\n\ndef g(x, extrap=None):\n    return 'nan' if extrap is None else extrap\n")
+    def fires(fn):
+        ops = {"extrap"}
+        for node in ast.walk(fn):
+            if isinstance(node, ast.BoolOp) and isinstance(node.op, ast.Or) and any(isinstance(v, ast.Name) and v.id in ops for v in node.values[:-1]):
+                return True
+        return False
+    fired, quiet = fires(ctl.body[0]), not fires(ctl.body[1])
+    R.controls.append(dict(name="or-default", ok=fired and quiet, detail="positive control fired=%s, `is None` twin quiet=%s" % (fired, quiet)))
+    return n
+
+
+# ------------------------------------------------------------------------------------------------- CP: copy protocol
+COPY_HOOKS = ("__deepcopy__", "__copy__", "__getstate__", "__setstate__", "__reduce__", "__reduce_ex__", "__getnewargs__", "__getnewargs_ex__")
+
+
+def copy_protocol(model: Model, R: RuleResult) -> int:
+    """No class of the package customises the copy / pickle protocol.  Packer (and the debug-mode assertions) rely on copy.deepcopy
+    producing an independent object with the attributes in the original order; a hook that shares, re-orders or drops state makes
+    the rebuilt structure alias or permute the caller's tensors."""
+    n = 0
+    for c in model.all_classes():
+        n += 1
+        hooks = [m for m in c.methods if m in COPY_HOOKS]
+        if hooks:
+            R.bad(c.methods[hooks[0]], c.methods[hooks[0]].node, "class %s overrides %s: deep copies of user structures containing it are no longer plain independent copies "
+                  "(Packer's internal copy and every rebuilt structure depend on that)" % (c.name, hooks))
+    R.ok("package", "%d classes: none overrides %s" % (n, "/".join(COPY_HOOKS[:4])))
+    R.controls.append(dict(name="hook-name-table", ok="__deepcopy__" in COPY_HOOKS and "__getstate__" in COPY_HOOKS, detail="hook table contains the copy and pickle hooks"))
+    return n
+
+
 # which generic rule applies to which property
 HS_PROPS = {"C%02d" % i for i in range(1, 21)}
 WF_PROPS = {"C01", "C03", "C05", "C16"}
 DA_PROPS = {"C02", "C04", "C06", "C08", "C09", "C10", "C13", "C16", "C17"}
+CP_PROPS = {"C20", "C10"}
 
 
 def common_rules(model: Model, prop: str, tier: str) -> List[RuleResult]:
     out = []
-    files = anchors().get(prop, set())
+    files = set(model.modules) if prop == "C19" else anchors().get(prop, set())
     if prop in HS_PROPS and files:
         R = RuleResult(prop, "HS", "who-may-hold-state: no cross-call state outside the frozen table of state holders (anchor files of this property)", min_instances=1)
         hidden_state(model, R, files)
@@ -352,6 +500,17 @@ def common_rules(model: Model, prop: str, tier: str) -> List[RuleResult]:
     if prop in WF_PROPS:
         R = RuleResult(prop, "WF", "the process-wide warning filter is never changed (a ConvergenceWarning can reach the caller)", min_instances=1)
         warning_filters(model, R)
+        out.append(R)
+    if files:
+        R = RuleResult(prop, "DR", "no discarded result: a statement-call of a function whose only effect is its return value (anchor files)", min_instances=1)
+        discarded_results(model, R, files)
+        out.append(R)
+        R = RuleResult(prop, "NT", "optional parameters are resolved with `is None`, never by truthiness (anchor files)", min_instances=1)
+        none_by_truthiness(model, R, files)
+        out.append(R)
+    if prop in CP_PROPS:
+        R = RuleResult(prop, "CP", "the copy / pickle protocol is not customised by any class of the package", min_instances=1)
+        copy_protocol(model, R)
         out.append(R)
     if prop in DA_PROPS:
         R = RuleResult(prop, "DA", "tensor `.data` is never assigned (substitution goes through set_attr; nothing bypasses autograd)", min_instances=1)
